@@ -62,6 +62,7 @@ type Buffer struct {
 	checkStartOffset int64
 	uuid             string
 	committed        bool
+	committedData    []byte
 	desc             ociregistry.Descriptor
 	commitErr        error
 }
@@ -112,7 +113,7 @@ func (b *Buffer) GetBlob() (ociregistry.Descriptor, []byte, error) {
 	if b.commitErr != nil {
 		return ociregistry.Descriptor{}, nil, b.commitErr
 	}
-	return b.desc, b.buf, nil
+	return b.desc, b.committedData, nil
 }
 
 // Write implements io.Writer by writing some data to the blob.
@@ -129,6 +130,13 @@ func (b *Buffer) Write(data []byte) (int, error) {
 	}
 	b.buf = append(b.buf, data...)
 	return len(data), nil
+}
+
+// setStartOffset sets the offset that the next write is expected to start at.
+func (b *Buffer) setStartOffset(offset int64) {
+	b.mu.Lock()
+	defer b.mu.Unlock()
+	b.checkStartOffset = offset
 }
 
 func newUUID() string {
@@ -148,7 +156,8 @@ func (b *Buffer) ID() string {
 // Commit implements [ociregistry.BlobWriter.Commit] by checking
 // that everything looks OK and calling the commit function if so.
 func (b *Buffer) Commit(dig ociregistry.Digest) (_ ociregistry.Descriptor, err error) {
-	if err := b.checkCommit(dig); err != nil {
+	desc, err := b.checkCommit(dig)
+	if err != nil {
 		return ociregistry.Descriptor{}, err
 	}
 	verifYield("Buffer.Commit:checked")
@@ -161,18 +170,14 @@ func (b *Buffer) Commit(dig ociregistry.Digest) (_ ociregistry.Descriptor, err e
 		b.commitErr = err
 		return ociregistry.Descriptor{}, err
 	}
-	return ociregistry.Descriptor{
-		MediaType: "application/octet-stream",
-		Size:      int64(len(b.buf)),
-		Digest:    dig,
-	}, nil
+	return desc, nil
 }
 
-func (b *Buffer) checkCommit(dig ociregistry.Digest) (err error) {
+func (b *Buffer) checkCommit(dig ociregistry.Digest) (_ ociregistry.Descriptor, err error) {
 	b.mu.Lock()
 	defer b.mu.Unlock()
 	if b.commitErr != nil {
-		return b.commitErr
+		return ociregistry.Descriptor{}, b.commitErr
 	}
 	defer func() {
 		if err != nil {
@@ -180,13 +185,16 @@ func (b *Buffer) checkCommit(dig ociregistry.Digest) (err error) {
 		}
 	}()
 	if actual := digest.FromBytes(b.buf); actual != dig {
-		return fmt.Errorf("digest mismatch (%s != %s): %w", actual, dig, ociregistry.ErrDigestInvalid)
+		return ociregistry.Descriptor{}, fmt.Errorf("digest mismatch (%s != %s): %w", actual, dig, ociregistry.ErrDigestInvalid)
 	}
 	b.desc = ociregistry.Descriptor{
 		MediaType: "application/octet-stream",
 		Digest:    dig,
 		Size:      int64(len(b.buf)),
 	}
+	// Note: snapshot the content that has been checked, limiting the
+	// capacity so that a concurrent Write cannot change or extend it.
+	b.committedData = b.buf[:len(b.buf):len(b.buf)]
 	b.committed = true
-	return nil
+	return b.desc, nil
 }
